@@ -386,6 +386,18 @@ func augmentOriginalFile(file *ast.File, overrides map[string]overrideInfo) {
 						d.Specs[j] = nil
 					}
 				case *ast.ValueSpec:
+					if d.Tok == token.CONST && d.Lparen.IsValid() {
+						// In a grouped constant declaration the position of a spec
+						// determines iota and what an implicit repetition repeats:
+						// an overridden constant is blanked, its spec stays.
+						for _, name := range s.Names {
+							if _, ok := overrides[name.Name]; ok {
+								anyChange = true
+								name.Name = `_`
+							}
+						}
+						continue
+					}
 					if len(s.Names) == len(s.Values) {
 						// multi-value context
 						// e.g. var a, b = 2, foo[int]()
